@@ -214,7 +214,8 @@ type world struct {
 	base      *security.SecurityConfig
 	addrUser  map[string]string // client host -> identity (FQUMapper)
 	hch       chan handlerObs
-	cache     *security.SessionCache // the client's cache
+	cache     *security.SessionCache   // the cache of the client now connecting (a fresh one per Connect)
+	sidCache  []*security.SessionCache // model sid -> the client cache that holds it
 	sids      []string               // model sid -> real session id ("" = not learned)
 	sidKind   []string               // model sid -> kind of the client that established it
 	srvSids   []string               // to drop from the global cache afterwards
@@ -453,6 +454,9 @@ func (w *world) readAck(lc *liveConn, o *handlerObs) {
 }
 
 func (w *world) clientCfg(kind, want string, cmd int) *security.SecurityConfig {
+	// every fresh connection comes from a client without cached sessions: with
+	// one the real client would resume instead of negotiating (that is Resume)
+	w.cache = security.NewSessionCache()
 	cfg := &security.SecurityConfig{
 		PeerName:      serverSinful,
 		CryptoMethods: []security.CryptoMethod{security.CryptoAES},
@@ -655,6 +659,7 @@ func (w *world) connect(s Step, disp *Step) {
 		}
 		w.sids = append(w.sids, sid)
 		w.sidKind = append(w.sidKind, s.Kind)
+		w.sidCache = append(w.sidCache, w.cache)
 		if sid != "" {
 			w.srvSids = append(w.srvSids, sid)
 		}
@@ -726,7 +731,7 @@ func (w *world) resume(s Step, disp *Step) {
 	}
 	lc := w.open("resumer", "resumer", "resumed")
 	cfg := &security.SecurityConfig{Command: CmdInt[s.Cmd], PeerName: serverSinful,
-		SessionCache: w.cache, SessionID: w.sids[s.Sid-1]}
+		SessionCache: w.sidCache[s.Sid-1], SessionID: w.sids[s.Sid-1]}
 	auth := security.NewAuthenticator(cfg, lc.st)
 	w.res.RealCalls++
 	_ = lc.cli.SetReadDeadline(time.Now().Add(WaitLong))
@@ -757,7 +762,7 @@ func (w *world) resume(s Step, disp *Step) {
 		}
 		if err != nil && security.IsSessionResumptionError(err) {
 			// the client dropped the session from its cache
-			if _, still := w.cache.Lookup(w.sids[s.Sid-1]); !still {
+			if _, still := w.sidCache[s.Sid-1].Lookup(w.sids[s.Sid-1]); !still {
 				w.sids[s.Sid-1] = ""
 			}
 		}
